@@ -292,7 +292,7 @@ def segment_scan(tree, x, reach, method, complex_rays):
 class Measure(object):
     """What one element of one case yields."""
     __slots__ = ('in_scope', 'skip', 'exact', 'value', 'err', 'S', 'floor', 'est', 'final_step', 'chat0', 'cn_abs',
-                 'rho_valid', 'W', 'nsteps', 'cancel_free', 'noise', 'cn_noise', 'full_window', 'trunc', 'E', 'P', 'rad',
+                 'rho_valid', 'W', 'nsteps', 'cancel_free', 'noise', 'cn_noise', 'E_low', 'P_low', 'full_window', 'trunc', 'E', 'P', 'rad',
                  'chosen_beyond_validity', 'lam', 'chat', 'n', 'frac_collapsed')
 
     def S_at(self, rho):
@@ -413,7 +413,7 @@ def oracle_for_element(case, res, e, x_e, value_e, est_e, fstep_e):
     # order of the terms the rule + Richardson stage eliminate (independent model of C06, not read from the library)
     from vf.props.c06 import quotient_class
     if method == 'multicomplex':
-        P = 2
+        P, spacing = 2, 2
     else:
         _qc, spacing = quotient_class(method, n, case['order'])
         mo = max((case['order'] // spacing) * spacing, spacing)
@@ -423,13 +423,19 @@ def oracle_for_element(case, res, e, x_e, value_e, est_e, fstep_e):
     lam = max(obs.get('rule_abs', 1.0), 1.0) * max(obs.get('rich_abs', 1.0), 1.0)
     m.lam = lam
     tail = [0.0] * (n + P) + chat[n + P:]
+    P_low = 2 if method == 'multicomplex' else spacing      # nothing but the leading order of the plain formula
+    tail_low = [0.0] * (n + P_low) + chat[n + P_low:]
+    m.P_low = P_low
 
     def trunc(rho):
         return s_of_rho(tail, n, rho) if any(tail) else 0.0
+
+    def trunc_low(rho):
+        return s_of_rho(tail_low, n, rho) if any(tail_low) else 0.0
     # local scale S* (windowed) and the two-term envelope E* = min over valid windows of
     #     eps * max(S(rho_small), S(rho_big))   [rounding, amplified by 1/rho^n]   +   T_P(rho_big)   [what the
     #     extrapolation cannot remove: Taylor terms of order >= n + P at the largest step of the window]
-    S, E = math.inf, math.inf
+    S, E, E_low = math.inf, math.inf, math.inf
     nat = min(1.0, rv)           # natural radius used for the rounding scale of the cancellation-free schemes
     m.cn_noise = 0.0
     if cancel_free:
@@ -450,10 +456,12 @@ def oracle_for_element(case, res, e, x_e, value_e, est_e, fstep_e):
             sw = max(s_of_rho(chat, n, rhos[i]), s_of_rho(chat, n, rhos[i + W - 1]))
         S = min(S, sw)
         E = min(E, EPS * lam * sw + trunc(rhos[i]))
+        E_low = min(E_low, EPS * lam * sw + trunc_low(rhos[i]))
     if not math.isfinite(S) or S <= 0 or S > 1e250 or not math.isfinite(E) or E <= 0:
         m.skip = 'skipped_no_window'
         return m
     m.E = E
+    m.E_low = E_low
     m.S = S
     m.in_scope = True
     m.chosen_beyond_validity = bool(fstep_e is not None and np.isfinite(fstep_e) and rad * abs(fstep_e) > rv * 1.0001)
